@@ -356,3 +356,14 @@ pub fn c12(out: &mut Vec<String>, _rng: &mut Rng, tier: &str) {
         }
     }
 }
+
+pub fn nk_line_pub(conf: Confidence, n: usize, k: usize) -> String {
+    nk_line(conf, n, k)
+}
+pub fn qidx_line_pub(prop: &str, conf: Confidence, n: usize, q: f64) -> String {
+    qidx_line(conf, n, q).replacen("C03", prop, 1)
+}
+pub fn qci_i64_pub(prop: &str, conf: Confidence, q: f64, data: &[i64]) -> String {
+    let p: Vec<Vec<i64>> = vec![data.iter().rev().cloned().collect()];
+    qci_line::<i64>(conf, q, data, &p).replacen("C03", prop, 1)
+}
